@@ -150,6 +150,34 @@ static void sub_names(const args_t *a, long c, rng_t *r)
 		if (mtbl_compression_type_from_str(bad[i], &t) != mtbl_res_failure) viol("C15/unknown-name-accepted", "from_str(\"%s\") accepted -> %d", bad[i], (int)t);
 		STAT("names.refused");
 	}
+	/* every string at edit distance one from a name (each byte value substituted or inserted at each position, each byte deleted), and every
+	 * case mask: accepted iff it equals a name under ASCII case folding (own fold: only A-Z), and then it maps to that name's algorithm */
+	for (int t = 0; t <= 5; t++) {
+		const char *nm = ALG[t]; size_t L = strlen(nm);
+		for (int kind = 0; kind < 4; kind++)
+			for (size_t pos = 0; pos <= L; pos++)
+				for (int bv = (kind == 2 ? 255 : 1); bv < 256; bv++) {
+					char cand[24]; size_t cl = 0;
+					if (kind == 0) { if (pos >= L) break; memcpy(cand, nm, L); cand[pos] = (char)bv; cl = L; }                                   /* substitute */
+					else if (kind == 1) { memcpy(cand, nm, pos); cand[pos] = (char)bv; memcpy(cand + pos + 1, nm + pos, L - pos); cl = L + 1; }   /* insert */
+					else if (kind == 2) { if (pos >= L) break; memcpy(cand, nm, pos); memcpy(cand + pos, nm + pos + 1, L - pos - 1); cl = L - 1; } /* delete */
+					else { if (pos > 0 || bv >= (1 << L)) break; for (size_t i = 0; i < L; i++) cand[i] = ((bv >> i) & 1) && nm[i] >= 'a' && nm[i] <= 'z' ? nm[i] - 32 : nm[i]; cl = L; } /* case mask */
+					cand[cl] = 0;
+					if (strlen(cand) != cl) continue;
+					int want = -1;
+					for (int u = 0; u <= 5; u++) {
+						size_t ul = strlen(ALG[u]); int eq = ul == cl;
+						for (size_t i = 0; eq && i < cl; i++) { char x = cand[i]; if (x >= 'A' && x <= 'Z') x += 32; if (x != ALG[u][i]) eq = 0; }
+						if (eq) want = u;
+					}
+					mtbl_compression_type got = (mtbl_compression_type)77;
+					mtbl_res res = mtbl_compression_type_from_str(cand, &got);
+					if (want < 0 && res == mtbl_res_success) viol("C15/unknown-name-accepted", "from_str(%s) accepted as %d: it is not the name of an algorithm", hexs((const uint8_t *)cand, cl), (int)got);
+					else if (want >= 0 && res == mtbl_res_success && (int)got != want) viol("C15/name-case-variant", "from_str(%s) -> %d want %d", hexs((const uint8_t *)cand, cl), (int)got, want);
+					else if (want >= 0 && kind == 3 && bv == 0 && res != mtbl_res_success) viol("C15/name-roundtrip", "from_str(%s) refused", cand);
+					statf(1, "names.neighbours.%s", want < 0 ? "not-a-name" : "name-up-to-case");
+				}
+	}
 	static const int badenum[] = {-1, 6, 7, 99, 255, 1000000};
 	for (size_t i = 0; i < sizeof badenum / sizeof(int); i++) {
 		if (mtbl_compression_type_to_str((mtbl_compression_type)badenum[i]) != NULL) viol("C15/to_str-out-of-enum", "to_str(%d) non-NULL", badenum[i]);
